@@ -150,6 +150,11 @@ def emit(pid, tier, seed, level, coverage, violations, wall, assumptions, harnes
     prints the verdict lines, returns the exit status."""
     known = load_known()
     os.makedirs(EVIDENCE, exist_ok=True)
+    d0 = os.path.join(REPLAYS, pid)
+    if os.path.isdir(d0):
+        for fn in os.listdir(d0):
+            if fn.endswith(".json"):
+                os.unlink(os.path.join(d0, fn))
     new = []
     lines = []
     seen_known = set()
